@@ -39,6 +39,9 @@ var ambientConfigs = []string{
 	"[diff \"simdriver\"]\n\tbinary = true\n",
 	"[diff]\n\tcontext = 0\n\tinterHunkContext = 5\n",
 	"[log]\n\tshowRoot = false\n",
+	"[diff]\n\trelative = true\n",
+	"[log]\n\tdiffMerges = dense-combined\n",
+	"[log]\n\tdiffMerges = first-parent\n[diff]\n\trelative = true\n",
 	"[log]\n\tshowRoot = false\n\tdate = relative\n[diff]\n\tindentHeuristic = false\n\tcolorMoved = zebra\n",
 }
 
@@ -213,6 +216,31 @@ func runC05(c *Ctx, ambient bool) {
 			h.Step()
 		}
 	}
+	// a merge whose resolution introduces content neither parent has, later
+	// replaced: the merge commit (unpushed) is the only thing referencing it
+	if len(h.Branches) > 1 && t.Bool(1, 4, "merge-resolution-introduces-object") {
+		other := h.Branches[0]
+		if other == h.Cur {
+			other = h.Branches[1]
+		}
+		if _, code := w.GitEnv(u1, h.dateEnv(), "merge", "-q", "--no-ff", "--no-commit", "-X", "ours", other); code == 0 {
+			h.WriteFile("merged.bin", h.NewContent())
+			w.Git(u1, "add", "merged.bin")
+			if _, code := w.GitEnv(u1, h.dateEnv(), "commit", "-q", "--no-edit"); code == 0 {
+				h.log("merge %s with a resolution of its own", other)
+				c.Probe("merge-resolution-introduces-object")
+				if t.Bool(1, 2, "replace-merge-content") {
+					h.WriteFile("merged.bin", h.NewContent())
+					h.commit("replace merged.bin")
+				}
+			} else {
+				w.Git(u1, "merge", "--abort")
+			}
+		} else {
+			w.Git(u1, "merge", "--abort")
+			w.Git(u1, "reset", "-q", "--hard")
+		}
+	}
 	// extra state
 	var worktrees []string
 	worktrees = append(worktrees, u1)
@@ -279,6 +307,15 @@ func runC05(c *Ctx, ambient bool) {
 		if _, code := w.GitQ(u1, "rev-parse", "-q", "--verify", "HEAD~1"); code == 0 {
 			w.Git(u1, "stash", "push", "-q")
 			w.Git(u1, "checkout", "-q", "--detach", "HEAD~1")
+			// work committed on the detached HEAD is reachable from nothing else
+			if t.Bool(1, 2, "commits-on-detached-head") {
+				for k := 0; k < 2; k++ {
+					h.WriteFile("detached.bin", h.NewContent())
+					w.Git(u1, "add", "detached.bin")
+					w.GitEnv(u1, h.dateEnv(), "commit", "-q", "-m", fmt.Sprintf("on detached HEAD %d", k))
+				}
+				c.Probe("commits-on-detached-head")
+			}
 		}
 	}
 	// flags
@@ -349,20 +386,21 @@ func runC05(c *Ctx, ambient bool) {
 			ret.addPtrs(w.blobPointers(u1, w.diffTreeBlobs(u1, '+', "--root", s+"^3")), "stash "+s[:8]+" (untracked)")
 		}
 	}
-	// unpushed: pointers introduced by non-merge commits reachable from a local
-	// branch or tag but from no remote-tracking ref of the prune remote
-	// ... and whose object is not referenced by anything the remote-tracking
-	// refs reach (an unpushed rename or re-add of pushed content is pushed).
+	// unpushed: every pointer in the tree of a commit that is reachable from
+	// HEAD, a local branch or a tag but from no remote-tracking ref of the
+	// prune remote, unless something those refs reach references the object too
+	// (an unpushed rename or re-add of pushed content is pushed). Trees rather
+	// than diffs: what a merge's own resolution introduces counts as well.
 	pushedOids := w.ReachablePointers(u1, "--remotes="+pruneRemote)
-	unpushed, _ := w.GitQ(u1, "rev-list", "--no-merges", "--branches", "--tags", "--not", "--remotes="+pruneRemote)
+	unpushed, _ := w.GitQ(u1, "rev-list", "HEAD", "--branches", "--tags", "--not", "--remotes="+pruneRemote)
 	for _, cm := range strings.Fields(unpushed) {
 		if len(cm) != 40 {
 			continue
 		}
-		intro := w.blobPointers(u1, w.diffTreeBlobs(u1, '+', "--root", cm))
-		for oid := range intro {
-			if _, pushed := pushedOids[oid]; pushed {
-				delete(intro, oid)
+		intro := map[string]*PtrRef{}
+		for _, pr := range w.TreePointers(u1, cm) {
+			if _, pushed := pushedOids[pr.Oid]; !pushed {
+				intro[pr.Oid] = pr
 			}
 		}
 		ret.addPtrs(intro, "unpushed commit "+cm[:8])
@@ -428,10 +466,15 @@ func runC05(c *Ctx, ambient bool) {
 	}
 
 	before := LocalObjects(g)
-	out, code := w.Git(u1, args...)
+	runDir := u1
+	if st, err := os.Stat(filepath.Join(u1, "dir")); err == nil && st.IsDir() && t.Bool(1, 4, "prune-from-subdirectory") {
+		runDir = filepath.Join(u1, "dir")
+		c.Probe("prune-from-subdirectory")
+	}
+	out, code := w.Git(runDir, args...)
 	after := LocalObjects(g)
 	c.Res.SimDays = 40
-	desc := fmt.Sprintf("%v (attributes %q, recentrefsdays=%d recentcommitsdays=%d pruneoffsetdays=%d fetchexclude=%q)", args, spelling, refsDays, commitsDays, offsetDays, exclude)
+	desc := fmt.Sprintf("%v (attributes %q, recentrefsdays=%d recentcommitsdays=%d pruneoffsetdays=%d fetchexclude=%q, user configuration %q, run in %s)", args, spelling, refsDays, commitsDays, offsetDays, exclude, strings.Join(strings.Fields(amb), " "), strings.TrimPrefix(runDir, w.Root+"/"))
 	if code != 0 {
 		c.Probe("prune-exit-nonzero")
 	} else {
